@@ -62,4 +62,27 @@ example : explainOf (.dict []) = some (.set [.str "B"]) := by decide +kernel
 example : explainOf (.dict [("K", .str "x")]) = some (.set [.str "A", .str "K"]) := by decide +kernel
 example : explainOf (.dict [("K", .str "x"), ("A", .int 1)]) = some (.set [.str "A", .str "K"]) := by decide +kernel
 
+/-! ### the full statement is false on the current tree: known finding F27 (kernel-evaluated)
+
+  `Map(switch(Option('K'), {'z': Option('Q'), 'x': case('x').when(never, None)}, 1), {'K': ['z', 'x']})` on `{}`:
+  the second element's explain fails (no case matches, no default), `Map.explain` falls back to the mapped
+  expression's explain under the caller's options (the default branch): it lists nothing, although validate fails
+  for the missing `Q` of the first element. -/
+def f27Env : Env := { c11Env with β := fun _ _ _ => .ok (.bool false) }    -- the predicate `never` is false
+
+def f27Expr : Expr :=
+  .map 9
+    (.switch 6 (.option 1 "K" Option.none Option.none)
+      [(.str "z", .option 2 "Q" Option.none Option.none),
+       (.str "x", .caseWhen 5 (.value 3 (.str "x")) [(.value 4 (.fn "never" [] []), .value 7 .none)] Option.none)]
+      (some (.value 8 (.int 1))))
+    [("K", .value 10 (.list [.str "z", .str "x"]))]
+
+theorem explain_lists_nothing_validate_fails_F27 :
+    (match ev f27Env 40 .explain f27Expr (.dict []) {} with | some (.ok v, _) => decide (v = .set []) | _ => false) = true ∧
+    (match ev f27Env 40 .validate f27Expr (.dict []) {} with
+      | some (.error (f :: _), _) => decide (f.cls = .keyNotFound) && decide (f.key = "Q")
+      | _ => false) = true := by
+  constructor <;> decide +kernel
+
 end Labrea
